@@ -2,7 +2,7 @@
    body (Model/LowerProg.v): same memory, script time, real time and instruction log, through jumps in both
    directions.  Composition of the per-statement theorems (LowerSound, LowerJumps) over [lower_body]. *)
 From TV Require Import Base.I32 Base.F32 Model.Ops Model.Expr Model.Lower Model.LowerSem Model.LowerProg
-  Proofs.LowerSound Proofs.LowerShape Proofs.LowerJumps Proofs.LowerStatic Proofs.LowerArgs Proofs.LowerArgsTern.
+  Proofs.LowerSound Proofs.LowerShape Proofs.LowerJumps Proofs.LowerStatic Proofs.LowerArgs Proofs.LowerArgsTern Proofs.LowerOpTern.
 Open Scope Z_scope.
 
 (* ---------------- pst bookkeeping ---------------- *)
@@ -349,7 +349,7 @@ Section Sim.
     lower t mask fuel (CAssignOp v aop e) s = Ok (c1, s1) ->
     (n0 <= g s)%nat -> te_agree n0 [] (te s) ->
     var_below n0 v -> locals_below n0 e = true ->
-    (wt_pure [] e = true \/ (aop = None /\ wt_tern [] e = true)) ->
+    (wt_pure [] e = true \/ wt_tern [] e = true) ->
     nonan_tb T libm rty lty diff (p_mem (wait t st)) e = true ->
     fresh (p_mem st) (g s) -> p_time st <= t ->
     assign_e (p_mem (wait t st)) v aop e = Ok m' ->
@@ -362,7 +362,14 @@ Section Sim.
     assert (Hv' : var_below (g s) v) by (eapply var_below_mono_; eassumption).
     assert (Hcps : (forall rest cmp, exists cmp', run_fwd (c1 ++ rest) Exec m cmp = run_fwd rest Exec m' cmp') /\
                    (g s <= g s1)%nat /\ te_agree (g s) (te s) (te s1)).
-    { destruct Hw as [Hw|[-> Hw]].
+    { assert (Hw0 : wt_pure [] e = true \/ (wt_tern [] e = true /\ (aop = None \/ exists bop cc ll rr, aop = Some bop /\ e = ETern cc ll rr))).
+      { destruct Hw as [Hw|Hw]; [left; exact Hw|]. destruct aop as [bop|]; [|right; split; [exact Hw | left; reflexivity]].
+        destruct e; try (left; exact Hw). right. split; [exact Hw|]. right. eauto 6. }
+      clear Hw. destruct Hw0 as [Hw|[Hw [->|[bop [cc [ll [rr [-> ->]]]]]]]];
+        [| |(* v op= c ? a : b *)
+           rewrite <- (agree_wt_tern rty lty n0 [] (te s) Ha _ Hb) in Hw;
+           eapply (opassign_tern_sound T libm avail auto_casts rty lty diff t mask no_sigil_intrinsics HT H2 fuel v bop cc ll rr s c1 s1 m m');
+           try eassumption; eapply nonan_tb_sound; eassumption].
       - rewrite <- (agree_wt rty lty n0 [] (te s) Ha e Hb) in Hw.
         destruct (lower_sound T libm avail auto_casts rty lty diff t mask no_sigil_intrinsics HT fuel _ _ _ _ Hl) with (m := m) (m' := m')
           as [Hrun [Hg Ht]]; [cbn [wf_call]; auto | exact Hfr | exact Hsem |].
@@ -491,7 +498,7 @@ Section Sim.
   Definition wf_stmt (n0 : nat) (st : sstmt) : Prop :=
     match st with
     | SAssign v aop e =>
-        var_below n0 v /\ locals_below n0 e = true /\ (wt_pure [] e = true \/ (aop = None /\ wt_tern [] e = true))
+        var_below n0 v /\ locals_below n0 e = true /\ (wt_pure [] e = true \/ wt_tern [] e = true)
     | SCondJmp k (CExpr e) l jt => wt_cond [] e = true /\ locals_below n0 e = true /\ user l
     | SCondJmp k (CPredec v) l jt => var_below n0 v /\ user l
     | SCondJmp k (CPredecCmp v op) l jt => var_below n0 v /\ user l
@@ -660,7 +667,7 @@ Section Sim.
       rewrite sdecl_cons in Hs. cbv zeta in Hs. set (m1 := update (p_mem st) (VLoc d) (default_of ty0)) in *.
       destruct (assign_e m1 (mkvar None (VLoc d)) None e) as [m2| | |] eqn:Ea; cbn [obind] in Hs; try discriminate.
       set (st1 := set_mem st m1).
-      assert (Hw' : wt_pure [] e = true \/ (@None binop = None /\ wt_tern [] e = true)) by (left; exact Hw).
+      assert (Hw' : wt_pure [] e = true \/ wt_tern [] e = true) by (left; exact Hw).
       destruct (sim_assign n0 t mask fuel (mkvar None (VLoc d)) None e s ca sa st1 m2 Hr Ela Hn Ha Hd Hb Hw') as [Hrun [Hg [Ht Hf2]]].
       + apply (nonan_tb_pure [] _ e Hw).
       + unfold st1. cbn [p_mem set_mem]. apply fresh_upd; [exact Hfr | lia].
@@ -738,7 +745,7 @@ Section Sim.
       destruct (lower t mask fuel (CAssignOp (mkvar None (VLoc d)) None e) s) as [[ca sa]| | |] eqn:Ela; try discriminate.
       inversion Hl; subst c1 s1.
       assert (Hd' : (d < g s)%nat) by lia.
-      assert (Hw' : wt_pure [] e = true \/ (@None binop = None /\ wt_tern [] e = true)) by (destruct Hw; [left | right]; auto).
+      assert (Hw' : wt_pure [] e = true \/ wt_tern [] e = true) by exact Hw.
       destruct (sim_assign n0 t mask fuel (mkvar None (VLoc d)) None e s ca sa (set_mem st m1) m2 Hr Ela Hn Ha Hd Hb Hw') as [Hrun [Hg [Ht Hf2]]].
       + rewrite wait_mem. exact Hnn.
       + cbn [p_mem set_mem]. apply fresh_upd; [exact Hfr | exact Hd'].
